@@ -221,7 +221,7 @@ func analyse(root *gnode, src string) *analysis {
 		for _, k := range g.Kids {
 			p := path + "." + k.Name
 			if k.IsList {
-				if len(k.List) == 0 && (k.Name == "Fields" || k.Name == "Values") && kind != "ObjectValue" {
+				if len(k.List) == 0 && (k.Name == "Fields" || k.Name == "Values") && strings.HasSuffix(kind, "Definition") {
 					a.set("empty-block:" + kind)
 				}
 				for _, x := range k.List {
